@@ -614,7 +614,6 @@ fn build_segment_from_runs(seg_id: SegmentId, runs: &Arc<Vec<Arc<L0Run>>>) -> Cs
 
     for run in runs.iter() {
         blocked_nodes.extend(run.iter_tombstoned_nodes());
-        blocked_edges.extend(run.iter_tombstoned_edges());
 
         for e in run.iter_edges() {
             if blocked_nodes.contains(&e.src) || blocked_nodes.contains(&e.dst) {
@@ -625,6 +624,10 @@ fn build_segment_from_runs(seg_id: SegmentId, runs: &Arc<Vec<Arc<L0Run>>>) -> Cs
             }
             edges.push(e);
         }
+
+        // A run's relationship tombstones hide older runs only: relationships that are still in
+        // the same run were created after the tombstone (delete-then-recreate in one transaction).
+        blocked_edges.extend(run.iter_tombstoned_edges());
     }
 
     edges.sort();
